@@ -53,6 +53,17 @@ struct PShared {
 	static const bool copyable = true, tracked = false;
 };
 
+template <int N>     // N multiple of 8, >= 16: trivially destructible but NOT trivially movable (points into itself)
+struct PSelfRef {
+	unsigned char buf[N - 8]; const unsigned char * self;
+	explicit PSelfRef(int id) : self(buf) { for(int i = 0; i < N - 8; ++i) buf[i] = patternByte(id, i); }
+	PSelfRef(const PSelfRef & o) : self(buf) { memcpy(buf, o.buf, N - 8); }
+	PSelfRef(PSelfRef && o) noexcept : self(buf) { memcpy(buf, o.buf, N - 8); }
+	bool ok(int id) const { if(self != buf) return false; for(int i = 0; i < N - 8; ++i) if(self[i] != patternByte(id, i)) return false; return true; }
+	static const char * kind() { return "self-referential (trivially destructible, user move)"; }
+	static const bool copyable = true, tracked = false;
+};
+
 struct Case { std::string name; void (*fn)(Ctx &, const std::string &); };
 static std::vector<Case> & cases() { static std::vector<Case> c; return c; }
 
@@ -69,7 +80,7 @@ template <size_t Cap, typename P> struct Probe {
 		one<PTrivial<24> >(ctx, a, nm, "PTrivial<24>"); one<PTrivial<25> >(ctx, a, nm, "PTrivial<25>"); one<PTrivial<64> >(ctx, a, nm, "PTrivial<64>"); one<PTrivial<65> >(ctx, a, nm, "PTrivial<65>");
 		one<PTracked<16> >(ctx, a, nm, "PTracked<16>"); one<PTracked<17> >(ctx, a, nm, "PTracked<17>"); one<PTracked<64> >(ctx, a, nm, "PTracked<64>"); one<PTracked<65> >(ctx, a, nm, "PTracked<65>");
 		one<PMoveOnly<16> >(ctx, a, nm, "PMoveOnly<16>"); one<PMoveOnly<24> >(ctx, a, nm, "PMoveOnly<24>"); one<PMoveOnly<72> >(ctx, a, nm, "PMoveOnly<72>");
-		one<PShared<24> >(ctx, a, nm, "PShared<24>"); one<PShared<32> >(ctx, a, nm, "PShared<32>"); one<PShared<72> >(ctx, a, nm, "PShared<72>");
+		one<PSelfRef<16> >(ctx, a, nm, "PSelfRef<16>"); one<PSelfRef<64> >(ctx, a, nm, "PSelfRef<64>"); one<PShared<24> >(ctx, a, nm, "PShared<24>"); one<PShared<32> >(ctx, a, nm, "PShared<32>"); one<PShared<72> >(ctx, a, nm, "PShared<72>");
 		one<int>(ctx, a, nm, "int"); one<std::string>(ctx, a, nm, "std::string"); one<eventpp::anydata_internal_::LargeData>(ctx, a, nm, "LargeData");
 	}
 };
@@ -159,6 +170,7 @@ static void regCap() {
 	Reg<Cap, PTracked, 5, Eff + 18, 1>::add();
 	Reg<Cap, PMoveOnly, 16, Eff + 32, 8>::add();
 	Reg<Cap, PShared, 24, Eff + 32, 8>::add();
+	Reg<Cap, PSelfRef, 16, Eff + 32, 8>::add();
 }
 
 #ifndef VERIF_SUB
